@@ -700,16 +700,23 @@ class _Generator(Generator):
                 '                     &src_p->{}buf[0],'.format(location),
                 '                     src_p->{}length);'.format(location)
             ]
+            unique_length = self.add_unique_decode_variable('uint32_t {};',
+                                                            'length')
+            if checker.maximum < 256:
+                cast = '(uint8_t)'
+            else:
+                cast = ''
             decode_lines = [
-                'dst_p->{}length = decoder_read_length_determinant(decoder_p);'.format(
-                    location),
+                '{} = decoder_read_length_determinant(decoder_p);'.format(
+                    unique_length),
                 '',
-                'if (dst_p->{}length > {}u) {{'.format(location, checker.maximum),
+                'if ({} > {}u) {{'.format(unique_length, checker.maximum),
                 '    decoder_abort(decoder_p, EBADLENGTH);',
                 '',
                 '    return;',
                 '}',
                 '',
+                'dst_p->{}length = {}{};'.format(location, cast, unique_length),
                 'decoder_read_bytes(decoder_p,',
                 '                   &dst_p->{}buf[0],'.format(location),
                 '                   dst_p->{}length);'.format(location)
@@ -986,6 +993,8 @@ class _Generator(Generator):
                 cast = '(uint8_t)'
             else:
                 cast = ''
+            unique_length = self.add_unique_decode_variable('uint32_t {};',
+                                                            'length')
             encode_lines = [
                 '{} = minimum_uint_length(src_p->{}length);'.format(
                     unique_number_of_length_bytes,
@@ -1003,16 +1012,17 @@ class _Generator(Generator):
             decode_lines = [
                 '{} = decoder_read_uint8(decoder_p);'.format(
                     unique_number_of_length_bytes),
-                'dst_p->{}length = {}decoder_read_uint('.format(location, cast),
+                '{} = decoder_read_uint('.format(unique_length),
                 '    decoder_p,',
                 '    {});'.format(unique_number_of_length_bytes),
                 '',
-                'if (dst_p->{}length > {}u) {{'.format(location, checker.maximum),
+                'if ({} > {}u) {{'.format(unique_length, checker.maximum),
                 '    decoder_abort(decoder_p, EBADLENGTH);',
                 '',
                 '    return;',
                 '}',
                 '',
+                'dst_p->{}length = {}{};'.format(location, cast, unique_length),
                 'for ({ui} = 0; {ui} < dst_p->{loc}length; {ui}++) {{'.format(
                     loc=location,
                     ui=unique_i),
